@@ -1,7 +1,9 @@
 import Gms.Driver.Proto
 import Gms.Model.Auth
+import Gms.Model.HostPattern
+import Gms.Model.AuthHist
 import Gms.Driver.AclParse
-open Gms.Proto Gms.Priv Gms.Auth Gms.AclParse
+open Gms.Proto Gms.Priv Gms.Auth Gms.AclParse Gms.AuthHist
 
 /-! Line-protocol driver for C40 (see harness/cmd/c40/main.go). `H` is instantiated with `sha1`. -/
 
@@ -24,8 +26,101 @@ def vnStr : Option Bool → String
   | none => "crash"
   | some b => b01 b
 
+/-! ### histories (`hist` cases) -/
+
+def parseKey (n h : Sexp) : Option Key := do some ((← sx n), (← sx h))
+
+def parseEv : Sexp → Option Ev
+  | .list [.atom "cu", n, h, pl, au, lk] => do
+    some (.op (.createUser (← parseKey n h) (← sx pl) (← sx au).toList (← flag lk)))
+  | .list [.atom "cr", n] => do some (.op (.createRole (← sx n)))
+  | .list [.atom "au", n, h, pl, au] => do some (.op (.alterUser (← parseKey n h) (← sx pl) (← sx au).toList))
+  | .list [.atom "du", n, h] => do some (.op (.dropUser (← parseKey n h)))
+  | .list [.atom "gg", n, h] => do some (.op (.grantGlobal (← parseKey n h)))
+  | .list [.atom "gd", n, h] => do some (.op (.grantScoped (← parseKey n h)))
+  | .list [.atom "fl"] => some (.op .flush)
+  | .list [.atom "ul", n, h, b] => do some (.op (.dmlUpdate (← parseKey n h) (.lock (← flag b))))
+  | .list [.atom "ua", n, h, au] => do some (.op (.dmlUpdate (← parseKey n h) (.auth (← sx au).toList)))
+  | .list [.atom "up", n, h, pl] => do some (.op (.dmlUpdate (← parseKey n h) (.plugin (← sx pl))))
+  | .list [.atom "dd", n, h] => do some (.op (.dmlDelete (← parseKey n h)))
+  | .list [.atom "in", n, h, pl, au, lk] => do
+    some (.op (.dmlInsert (← parseKey n h) (← sx pl) (← sx au).toList (← flag lk)))
+  | .list [.atom "lg", u, h, pw] => do
+    -- an honest client: empty response for an empty password, else the token for the salt
+    let pwb ← pw.bytes?
+    let salt : Bytes := List.replicate 20 7
+    some (.login (← sx u) (← sx h) salt (if pwb.isEmpty then [] else clientToken sha1 salt (sha1 pwb)))
+  | _ => none
+
+def loginStr : LoginOut → String
+  | .noMethod => "nomethod"
+  | .out o => outStr o
+
+def acctStr (a : Acct) : String :=
+  hx a.name ++ "@" ++ hx a.host ++ ":" ++ hx a.plugin ++ ":" ++ hx (String.ofList a.auth) ++ ":" ++ b01 a.locked
+
+def tableStr (es : List Entry) : String :=
+  ",".intercalate (((acctsOf es).map acctStr).mergeSort (fun a b => decide (a ≤ b)))
+
+structure HistAcc where
+  esI : List Entry
+  esS : List Entry
+  ts : List (Key × String) := []
+  outsI : List String := []
+  outsS : List String := []
+  undetermined : Bool := false
+  regions : List String := []      -- one per difference between Impl and Spec
+
+def histStep (acc : HistAcc) : Ev → HistAcc
+  | .op o =>
+    { acc with esI := stepI acc.esI o, esS := stepS acc.esS o, ts := taintStep acc.esI acc.ts o }
+  | .login u h salt resp =>
+    let oI := loginStr (loginI sha1 acc.esI u h salt resp)
+    match loginS sha1 acc.esS u h salt resp with
+    | none => { acc with outsI := oI :: acc.outsI, outsS := "?" :: acc.outsS, undetermined := true }
+    | some o =>
+      let oS := loginStr o
+      let region :=
+        if oI = oS then []
+        else
+          let kI := (chooseEntry acc.esI u h).map (·.key)
+          let kS := (chooseEntry acc.esS u h).map (·.key)
+          let t := ((kI.bind (taintOf acc.ts)).or (kS.bind (taintOf acc.ts))).or (taintOf acc.ts (u, normHost h))
+          match t with
+          | some r => [r]
+          | none => if matchOrderDiffers (acctsOf acc.esS) u h then ["match_order_by_insertion"] else ["-"]
+      { acc with outsI := oI :: acc.outsI, outsS := oS :: acc.outsS, regions := acc.regions ++ region }
+
+def histAnswer (es0 : List Entry) (evs : List Ev) : String :=
+  let acc := evs.foldl histStep { esI := es0, esS := es0 }
+  let keys := ((acc.esI ++ acc.esS).map (·.key)).eraseDups
+  let tblRegions := keys.filterMap (fun k =>
+    if (withKey acc.esI k).map (·.a) = (withKey acc.esS k).map (·.a) then none
+    else some ((taintOf acc.ts k).getD "-"))
+  let regions := acc.regions ++ tblRegions
+  let impl := ";".intercalate acc.outsI.reverse ++ "|" ++ tableStr acc.esI
+  let spec := ";".intercalate acc.outsS.reverse ++ "|" ++ tableStr acc.esS
+  if acc.undetermined then answer impl "?"
+  else if impl = spec then answer impl
+  else
+    let region := if regions.contains "-" then "-" else regions.headD "-"
+    answer impl spec region
+
 def handle (p : List Sexp) : String :=
   match p with
+  | [.list [.atom "hp", h, pt]] =>
+    match sx h, sx pt with
+    | some host, some pat =>
+      -- `Gms.Priv.matchesHostPattern` (what `getUserIdx` uses) = `Gms.HostPattern.matchesHostPattern`
+      -- (`Gms.C40.matchesHostPattern_eq`); Spec: the language of the code's regular expression (`glob_iff_matches`)
+      let impl := b01 (Gms.Priv.matchesHostPattern host pat)
+      let spec := b01 (Gms.HostPattern.matchesHostPattern host pat)
+      if impl = spec then answer impl else answer impl spec "-"
+    | _, _ => answer "bad-case"
+  | [.list [.atom "hist", .list as, .list evs]] =>
+    match as.mapM parseAcct, evs.mapM parseEv with
+    | some accts, some es => histAnswer (accts.map (fun a => { a := a, subPriv := false })) es
+    | _, _ => answer "bad-case"
   | [.list [.atom "sha1", m]] =>
     match m.bytes? with
     | some msg => answer (hexPlain (sha1 msg))
